@@ -231,6 +231,8 @@ class Container(Alphabet):
                 return "varint"
             if d == "std::vec::Vec::push":
                 return "push"
+            if d.endswith("box_assume_init_into_vec_unsafe") or d.endswith("slice::<impl [T]>::into_vec") or d.endswith("::into_vec"):
+                return "vecmacro"
         else:
             if tr == "std::io::Read" and d.endswith("::read"):
                 return "read"
@@ -265,6 +267,17 @@ class Container(Alphabet):
                 return [(("bytes", n, v), None)]
             if k == "varint":
                 return [(("varint", flow.const_eval(body, a[1])), None)]
+            if k == "vecmacro":
+                # `vec![CONST]` as the start of the output: the one-byte array the macro boxes
+                if not t["dest"] or t["dest"]["p"] or not body.local_ty(t["dest"]["l"]).endswith("std::vec::Vec<u8>"):
+                    return None
+                arrs = [s0["r"] for x in body.normal_blocks() if body.dominates(x, bb) for s0 in body.stmts(x)
+                        if s0["k"] == "assign" and s0["r"].get("k") == "agg" and s0["r"].get("ak") == "array" and len(s0["r"].get("ops", [])) == 1]
+                vals = [flow.const_eval(body, r0["ops"][0]) for r0 in arrs]
+                vals = [v for v in vals if v is not None]
+                if len(vals) != 1:
+                    return None
+                return [(("bytes", 1, vals[0]), None)]
             if k == "push":
                 v = flow.const_eval(body, a[1])
                 if v is None:
